@@ -18,8 +18,14 @@ import (
 
 func init() {
 	register("C03", func(c *Ctx) { runE2E(c, "C03") })
-	register("C01", func(c *Ctx) { runE2E(c, "C01"); runC01Race(c); runC02Stage(c, "C01"); runC01XFS(c); runC01Overlap(c) })
-	register("C02", func(c *Ctx) { runE2E(c, "C02"); runC02Stage(c, "C02") })
+	register("C01", func(c *Ctx) {
+		runE2E(c, "C01")
+		runC01Race(c)
+		runC02Stage(c, "C01")
+		runC01XFS(c, "C01")
+		runC01Overlap(c)
+	})
+	register("C02", func(c *Ctx) { runE2E(c, "C02"); runC02Stage(c, "C02"); runC01XFS(c, "C02") })
 	register("C05", func(c *Ctx) { runE2E(c, "C05"); runC05Stage(c, "C05"); runC05Cache(c) })
 	register("C08", func(c *Ctx) { runE2E(c, "C08"); runC08HTTP(c) })
 	register("C06", func(c *Ctx) { runCrashEnum(c, "C06"); runVersionCrash(c, "C06"); runC05Stage(c, "C06") })
